@@ -14,6 +14,58 @@ import (
 
 func init() { drivers["C11"] = runC11 }
 
+// pokeLists calls Contains / Remove / Add with every entry of every TagList, StringList and CIDRList reachable from v.
+func pokeLists(v reflect.Value, depth int) {
+	if depth > 10 {
+		return
+	}
+	switch v.Kind() {
+	case reflect.Ptr, reflect.Interface:
+		if !v.IsNil() {
+			pokeLists(v.Elem(), depth+1)
+		}
+	case reflect.Struct:
+		for i := 0; i < v.NumField(); i++ {
+			if v.Field(i).CanSet() {
+				pokeLists(v.Field(i), depth+1)
+			}
+		}
+	case reflect.Map:
+		for _, k := range v.MapKeys() {
+			pokeLists(v.MapIndex(k), depth+1)
+		}
+	case reflect.Slice:
+		if v.CanAddr() {
+			switch l := v.Addr().Interface().(type) {
+			case *jwt.TagList:
+				for _, e := range append([]string{}, *l...) {
+					l.Contains(e)
+					l.Remove(e)
+					l.Add(e)
+				}
+				return
+			case *jwt.StringList:
+				for _, e := range append([]string{}, *l...) {
+					l.Contains(e)
+					l.Remove(e)
+					l.Add(e)
+				}
+				return
+			case *jwt.CIDRList:
+				for _, e := range append([]string{}, *l...) {
+					l.Contains(e)
+					l.Remove(e)
+					l.Add(e)
+				}
+				return
+			}
+		}
+		for i := 0; i < v.Len(); i++ {
+			pokeLists(v.Index(i), depth+1)
+		}
+	}
+}
+
 // guard runs f and reports a panic as a string.
 func guard(f func()) (p string) {
 	defer func() {
@@ -139,6 +191,9 @@ func exerciseClaims(c jwt.Claims, s *signer, report func(op, panic string)) {
 	case *jwt.GenericClaims:
 		try("GenericClaims data", func() { _ = x.Data["x"] })
 	}
+	// every tag / string / network list anywhere in the decoded claims: remove and re-add each of its entries
+	// (a hand-written payload may hold duplicates, which the library's own Add never creates)
+	try("list helpers on decoded lists", func() { pokeLists(reflect.ValueOf(c), 0) })
 	// re-encode last: Encode sorts and stamps
 	try("Encode", func() { c.Encode(s.kp) })
 }
@@ -328,6 +383,16 @@ func runC11(c *Ctx) {
 						how  string
 						repl interface{}
 					}{"replace", r})
+				}
+				// arrays additionally get duplicated entries (first entry again at the end; the whole list twice)
+				if arr, isArr := nodeAt(tree, p).([]interface{}); isArr && len(arr) > 0 {
+					muts = append(muts, struct {
+						how  string
+						repl interface{}
+					}{"replace", append(append([]interface{}{}, arr...), arr[0])}, struct {
+						how  string
+						repl interface{}
+					}{"replace", append(append([]interface{}{}, arr...), arr...)})
 				}
 				// string-valued nodes additionally take hostile strings (subjects with empty tokens, "$" references,
 				// wildcards and blanks in odd places, over-long text)
